@@ -284,6 +284,39 @@ class Interp:
             got = check_dataset_views(self.d, "unified_dataset()")
             same_rankings(got, self.model, "unified_dataset()")
             self._derived()
+        elif kind == "peek":
+            # read-only derived views of the CURRENT dataset (it stays the current one): whatever they compute or
+            # cache must not survive a later mutation
+            rs = lib.must(self.d.unified_rankings)
+            want = [oracle.unify(r, univ) for r in self.model]
+            if [oracle.canon(lib.model_of_ranking(r)) for r in rs] != [oracle.canon(w) for w in want]:
+                raise Violation("unified_rankings() = %s, expected %s for the current rankings %s" % (
+                    [lib.model_of_ranking(r) for r in rs], want, self.model))
+            for k, r in enumerate(rs):
+                check_ranking_views(r, "unified_rankings()[%d]" % k)
+            ud = check_dataset_views(lib.must(self.d.unified_dataset), "unified_dataset() (peek)")
+            same_rankings(ud, want, "unified_dataset() (peek)")
+            S = self.pick(op["mask"]) or univ[:1]
+            sub = lib.must(self.d.sub_problem_from_elements, {Element(e) for e in S})
+            got = check_dataset_views(sub, "sub_problem_from_elements(%s) (peek)" % S)
+            same_rankings(got, lib.normalized([r2 for r2 in (oracle.project(r, set(S)) for r in self.model) if r2]),
+                          "sub_problem_from_elements(%s) (peek)" % S)
+            old = check_dataset_views(self.d, "dataset after peeking")
+            same_rankings(old, self.model, "dataset after peeking (must be unchanged)")
+            self.kinds.append("peek")
+        elif kind == "aggregate":
+            # an algorithm run on the current dataset must see exactly the current universe
+            from checks.common_alg import well_formed
+            cfgname = op["config"]
+            sch = lib.mk_scheme(gen.PRESETS["unifying"])
+            import random
+            random.seed(op.get("rng", 0))
+            st_, res = lib.call(configs.run, cfgname, "absent", self.d, sch, True, op.get("rng", 0))
+            if res[0] == "ok":
+                well_formed(res[1], self.model, True, "%s on the mutated dataset" % cfgname)
+            old = check_dataset_views(self.d, "dataset after running %s" % cfgname)
+            same_rankings(old, self.model, "dataset after running %s (must be unchanged)" % cfgname)
+            self.kinds.append("aggregate")
         elif kind in ("sub_elements", "sub_ids"):
             S = self.pick(op["mask"])
             keep_empty = bool(op.get("keep_empty"))
@@ -390,6 +423,16 @@ def machine_factory(ctx, tier):
         @rule(mask=st.integers(1, 255), keep_empty=st.booleans())
         def sub_elements(self, mask, keep_empty):
             self._do({"op": "sub_elements", "mask": mask, "keep_empty": keep_empty})
+
+        @rule(mask=st.integers(1, 255))
+        def peek(self, mask):
+            self._do({"op": "peek", "mask": mask})
+
+        @rule(config=st.sampled_from(["borda", "borda_bucket", "pickaperm", "copeland", "kwiksort", "bioconsert",
+                                      "bioco"]), rng=st.integers(0, 999))
+        def aggregate(self, config, rng):
+            if len(self.it.universe()) <= 8:
+                self._do({"op": "aggregate", "config": config, "rng": rng})
 
         @rule(mask=st.integers(1, 255), keep_empty=st.booleans())
         def sub_ids(self, mask, keep_empty):
